@@ -622,6 +622,11 @@ where
     ) -> Result<&'a str, WebauthnError> {
         let mut effective_rp_id = target_link.host();
 
+        // Like `Url::domain` for web origins: an IP literal is not a domain.
+        if effective_rp_id.parse::<std::net::IpAddr>().is_ok() {
+            return Err(WebauthnError::OriginMissingDomain);
+        }
+
         if let Some(rp_id) = rp_id {
             // subset from assert_web_rp_id
             if !is_domain_suffix_or_equal(effective_rp_id, rp_id) {
